@@ -5,18 +5,29 @@ hands the options to) is interpreted symbolically (rules/c10_model.py).  The res
 graph is built from - the module list and the import list - as parts with guards over the atoms FLAG (externals excluded), HAS
 (external patterns present), EXCL[x] / ∃EXCL[anc:x] (a pattern matches the name of x / one of its ancestors), INT[x] (the internal
 test accepts the name of x) and INSCAN[x] (x is a scanned module).  The rules are propositional statements about these
-descriptions, so they do not depend on helper names, on loops versus comprehensions, on early returns, or on where a guard sits:
+descriptions, decided by exhaustive evaluation, so they do not depend on helper names, on loops versus comprehensions, on early
+returns, on where a guard sits, or on which object carries a decision:
 
   C10.R1  no decision that depends on the external options changes what happens to an internal element: the retention condition of
           an import whose importee is internal, and of a scanned internal module, is the same for every value of FLAG / HAS / EXCL
-  C10.R2  the internal test compares whole dotted components (F-NAME sites of everything reachable from the scan entry point) and
-          complete prefixes (no comparison of component lists truncated by zip)
+  C10.R2  the internal test compares whole dotted components (F-NAME sites of everything reachable from the scan entry point, with
+          the positive fixture of rules/names.py instead of a floor) and complete prefixes (no comparison of component lists
+          truncated by zip - embedded positive fixture)
   C10.R3  exactly the externals are appended as modules: names derived from an import are added only when the internal test
           rejects its importee, and the importee and its ancestors of every retained external import are added
   C10.R4  with externals excluded the scanned module list is handed on unchanged, nothing is appended, and only imports accepted by
           the internal test remain; with externals included an import is dropped exactly when its importee or one of its
           ancestors matches a pattern
   C10.R5  the scan pipeline keeps no class-level or module-level state between scans
+
+"Internal" is `is_internal_module` (a name other modules import) wherever it is called; its body - interpreted for a generic name -
+defines INT in terms of the other tests on the same name met in the pipeline (a class answering the same question, a duplicate of
+the test: pure predicates are named after what they test, not after the function).  Where the pipeline never calls it, INT is what
+alone decides, with externals excluded, which imports remain.
+
+Three outcomes: discharged; VIOLATED - only when a counter-example exists whatever the values of the facts the model cannot judge,
+and only on formulas free of modelling gaps (values the interpreter had to leave open carry the mark GAP); undecided otherwise
+(incomplete description of a collection, tests in a spelling the model does not know), with the construct and the reason named.
 """
 
 from __future__ import annotations
